@@ -445,6 +445,13 @@ def k_transform(run, case, rng, work):
         form = "txt/" + gen.save_matrix_text(rng, path, M) if np.asarray(M).ndim == 2 else (np.savetxt(path, M), "txt")[1]
     else:
         q = rm.quat_wxyz_from_rot(R)
+        if rng.random() < .35:
+            # a hand-written file: quaternion components rounded to 3..5 decimals (the rotation is
+            # that of the normalised quaternion)
+            q = np.round(q, int(rng.integers(3, 6)))
+            if not np.any(q):
+                q = np.array([1.0, 0.0, 0.0, 0.0])
+            R = rm.rot_from_quat_wxyz(q)
         d = {"x": float(t[0]), "y": float(t[1]), "z": float(t[2]), "qw": float(q[0]), "qx": float(q[1]),
              "qy": float(q[2]), "qz": float(q[3])}
         if s != 1.0 or rng.random() < .3:
